@@ -21,7 +21,8 @@ func (tdStoreStream) Rule() string {
 	return "operation histories (length 1..40) over a pool of user and group DNs none of which is a substring of another (plus, in a separate hostile class, DNs with parentheses, stars, spaces, newlines and substring relations, which only the model correspondence judges): add with 0..3 attributes (duplicate names), modify with add-value / delete-attribute / replace / increment changes of 0..2 values, delete, searches under the user base, the group base (member filters) and other bases, SetUsers / SetGroups in between; every request is real LDAP bytes through the directory's own mux, in-process; after every step the response (code, entries, attributes in order) is compared with the Lean model and, for the clean class, with a reference map; non-trivial = history with at least one successful mutation followed by a search, distinct by history"
 }
 
-var storeAttrNames = []string{"cn", "mail", "description", "member", "sn"}
+// (with spellings that differ in case only: the directory compares attribute names as they are written)
+var storeAttrNames = []string{"cn", "mail", "description", "member", "sn", "Description", "displayName", "displayname", "MAIL"}
 
 func storeDNPool(rng *rand.Rand, hostile bool) ([]string, []string) {
 	users := []string{"cn=alice,ou=people,dc=example,dc=org", "cn=bob,ou=people,dc=example,dc=org", "cn=carol,ou=people,dc=example,dc=org", "uid=dave,ou=people,dc=example,dc=org", "cn=erin,ou=staff,dc=example,dc=org"}
